@@ -63,28 +63,28 @@ static int ref_Derived_take_ref(Derived const *t, Base *b) { return t->take_ref(
 //REF Derived::take_ptr(Derived const *,Other *)
 static int ref_Derived_take_ptr(Derived const *t, Other *o) { return t->take_ptr(o); }
 // exported only under -promiscuous: public data members and the global trace cell
-//OPTIONAL get_g_trace() : c_fnames,c_string_fnames,c,c_string,c_fnames_fptrs,c_fnames_uniq,c_fnames_nodb,c_true_names
+//OPTIONAL get_g_trace() : c_fnames,c_string_fnames,c,c_string,c_fnames_fptrs,c_fnames_uniq,c_fnames_nodb,c_true_names,py_string_fnames,py_fnames,py
 //REF get_g_trace()
 static int ref_p_94959() { return g_trace; }
-//OPTIONAL set_g_trace(int) : c_fnames,c_string_fnames,c,c_string,c_fnames_fptrs,c_fnames_uniq,c_fnames_nodb,c_true_names
+//OPTIONAL set_g_trace(int) : c_fnames,c_string_fnames,c,c_string,c_fnames_fptrs,c_fnames_uniq,c_fnames_nodb,c_true_names,py_string_fnames,py_fnames,py
 //REF set_g_trace(int)
 static void ref_p_94877(int v) { g_trace = v; }
-//OPTIONAL Base::get_b(Base const *) : c_fnames,c_string_fnames,c,c_string,c_fnames_fptrs,c_fnames_uniq,c_fnames_nodb,c_true_names
+//OPTIONAL Base::get_b(Base const *) : c_fnames,c_string_fnames,c,c_string,c_fnames_fptrs,c_fnames_uniq,c_fnames_nodb,c_true_names,py_string_fnames,py_fnames,py
 //REF Base::get_b(Base const *)
 static int ref_p_20732(Base const *t) { return t->_b; }
-//OPTIONAL Base::set_b(Base *,int) : c_fnames,c_string_fnames,c,c_string,c_fnames_fptrs,c_fnames_uniq,c_fnames_nodb,c_true_names
+//OPTIONAL Base::set_b(Base *,int) : c_fnames,c_string_fnames,c,c_string,c_fnames_fptrs,c_fnames_uniq,c_fnames_nodb,c_true_names,py_string_fnames,py_fnames,py
 //REF Base::set_b(Base *,int)
 static void ref_p_96097(Base *t, int v) { t->_b = v; }
-//OPTIONAL Other::get_o(Other const *) : c_fnames,c_string_fnames,c,c_string,c_fnames_fptrs,c_fnames_uniq,c_fnames_nodb,c_true_names
+//OPTIONAL Other::get_o(Other const *) : c_fnames,c_string_fnames,c,c_string,c_fnames_fptrs,c_fnames_uniq,c_fnames_nodb,c_true_names,py_string_fnames,py_fnames,py
 //REF Other::get_o(Other const *)
 static int ref_p_15580(Other const *t) { return t->_o; }
-//OPTIONAL Other::set_o(Other *,int) : c_fnames,c_string_fnames,c,c_string,c_fnames_fptrs,c_fnames_uniq,c_fnames_nodb,c_true_names
+//OPTIONAL Other::set_o(Other *,int) : c_fnames,c_string_fnames,c,c_string,c_fnames_fptrs,c_fnames_uniq,c_fnames_nodb,c_true_names,py_string_fnames,py_fnames,py
 //REF Other::set_o(Other *,int)
 static void ref_p_37931(Other *t, int v) { t->_o = v; }
-//OPTIONAL Derived::get_d(Derived const *) : c_fnames,c_string_fnames,c,c_string,c_fnames_fptrs,c_fnames_uniq,c_fnames_nodb,c_true_names
+//OPTIONAL Derived::get_d(Derived const *) : c_fnames,c_string_fnames,c,c_string,c_fnames_fptrs,c_fnames_uniq,c_fnames_nodb,c_true_names,py_string_fnames,py_fnames,py
 //REF Derived::get_d(Derived const *)
 static int ref_p_18271(Derived const *t) { return t->_d; }
-//OPTIONAL Derived::set_d(Derived *,int) : c_fnames,c_string_fnames,c,c_string,c_fnames_fptrs,c_fnames_uniq,c_fnames_nodb,c_true_names
+//OPTIONAL Derived::set_d(Derived *,int) : c_fnames,c_string_fnames,c,c_string,c_fnames_fptrs,c_fnames_uniq,c_fnames_nodb,c_true_names,py_string_fnames,py_fnames,py
 //REF Derived::set_d(Derived *,int)
 static void ref_p_41171(Derived *t, int v) { t->_d = v; }
 // the same base-class wrappers called on an object that really is a Derived (virtual dispatch, this-adjustment)
